@@ -418,7 +418,7 @@ namespace Givaro {
         }
         if (degA ==0)
         {
-            assign(R, zero);
+            assign(R, A);
             _domain.assign(m, _domain.one);
             return assign(Q, zero);
         }
@@ -488,7 +488,7 @@ namespace Givaro {
         if (degA ==0)
         {
             _domain.assign(m, _domain.one);
-            return assign(R, zero);
+            return assign(R, A);
         }
         if (degB > degA) {
             _domain.assign(m, _domain.one);
